@@ -20,9 +20,9 @@ add("C01", "exploration", EXPL,
     "Trusts tokio/futures channels and DelayQueue; single-threaded interleaving at poll granularity plus preemption at transport calls and the H2/H4 yield points.", "DESIGN.md §5 C01")
 add("C02", "exploration", EXPL,
     "Bounded liveness at quiescence under strict wake-only scheduling: tasks are polled only after their waker fired, so a lost wake-up shows up as a call still pending when nothing is runnable and no timer is left.",
-    "Stalls are finite, every deadline lies below the run horizon; liveness is 'resolved by quiescence once faults stop', never 'within K steps'.", "DESIGN.md §5 C02")
+    "Stalls are finite, every deadline lies below the run horizon; liveness is 'resolved by quiescence once faults stop', never 'within K steps'. Also required at quiescent points: the deadline timer gets the dispatch polled at the deadline (lost-wake{timer}) and a free in-flight slot with a writable transport leaves no live call queued unsent (lost-wake{capacity}); clock jumps between polls are one of the fault kinds.", "DESIGN.md §5 C02")
 add("C05", "exploration", EXPL,
-    "Virtual-clock exploration of deadline classes against replies placed at D-2..D+1 ms, queueing delays and stalls; checks never-early, not-late (2 ms slack) and reply-before-deadline-wins.",
+    "Virtual-clock exploration of deadline classes (already expired, 0 ms .. hours, and 1-10 years under a 780-day horizon so that timers are re-armed and the timer queue renewed) against replies placed at D-2..D+1 ms, queueing delays, stalls, clock jumps and calls that start after months of quiet; checks never-early, not-late (2 ms slack, also 'never expired at all') and reply-before-deadline-wins.",
     "Timer granularity 1 ms modelled as 2 ms slack; clock read through hook H1.", "DESIGN.md §5 C05")
 
 add("C03", "fault_enumeration", "deterministic simulation: abandonment (crash of the caller) enumerated at every suspension point of every call of seeded scenarios, plus seeded search over schedules",
@@ -32,8 +32,8 @@ add("C04", "exploration", EXPL,
     "Seeded exploration of the Cancel's position relative to handler start, completion, response buffering and write on the real BaseChannel/Requests/execute path with scripted handlers that log every poll and their drop; checks no progress / no response / not counted after a cancel and that unrelated cancels abort nothing. (Chains of services: see P-e2e in DESIGN.md.)",
     "Handler polls already in progress when the cancel is processed at a preemption point may run to their end; their result must not be transmitted.", "DESIGN.md §5 C04")
 add("C06", "exploration", EXPL,
-    "Virtual-clock exploration of server-side deadlines (expired on arrival .. 50 ms) against handlers finishing at D-2..D+1 or never, with and without a per-channel limit and with stalled sinks; never-early, not-late at idle points (2 ms slack), nothing transmitted after expiry, no collateral aborts.",
-    "One genuine defect is recorded as a known finding (limit + not-ready sink defers expiry); any other late/early abort is still reported.", "DESIGN.md §5 C06, §7 D6")
+    "Virtual-clock exploration of server-side deadlines (expired on arrival .. 50 ms, and 1-30 years under a 780-day horizon) against handlers finishing at D-2..D+1 or never, with and without a per-channel limit, with stalled sinks, clock jumps and requests arriving after months of quiet; never-early, not-late at idle points (2 ms slack), nothing transmitted after expiry, no collateral aborts.",
+    "The defect first recorded as a known finding (limit + not-ready sink deferred expiry, D6) is fixed in /repo 9e3abbf; its entries in known_findings.json are 'fixed' and suppress nothing.", "DESIGN.md §5 C06, §7 D6")
 add("C08", "exploration", EXPL,
     "Seeded exploration with a scripted peer sending fresh ids, duplicates while in flight, ids reused after their response, cancels and close against the real channel; counts handler offers and responses per incarnation with an interval (definitely/possibly tracked) model.",
     "Id reuse after cancel/expiry with a still-buffered response is outside the property's quantifier and excluded from response attribution.", "DESIGN.md §5 C08")
@@ -42,7 +42,7 @@ add("C10", "fault_enumeration", "deterministic simulation: end-of-stream enumera
     "EOF positions are enumerated per read operation (first 16 in the quick tier, 80 in the thorough tier); handle drops are at seeded times and at the end of every run.", "DESIGN.md §5 C10")
 add("C11", "exploration", EXPL,
     "In-flight and timer counts (hook H3) sampled after every dispatch / request-stream poll: client never above max_in_flight (also derived from the wire), server count within the interval model at every sample, and zero entries and zero timers at every idle point where all calls / yielded requests have ended, with the clock stopped.",
-    "Server-side consequences of the known C06 finding (limit + not-ready sink) are listed as known findings.", "DESIGN.md §5 C11")
+    "Fault runs are included: after a failed response write the count sampled in the failing poll is still compared (the answered request has ended for the channel).", "DESIGN.md §5 C11")
 add("C12", "exploration", EXPL,
     "Limits 0-3 on the real MaxRequests over BaseChannel with bursts, cancels, completion orders and sink stalls; interval model: never yielded with L definitely in flight, refused only if L were possibly in flight when read, exactly one throttle response, never executed.",
     "Expiry and guard-drop processing are not observable, so such requests stay in the upper bound (no alarm from an unprovable stale count).", "DESIGN.md §5 C12, §7 D8")
@@ -50,11 +50,11 @@ add("C14", "exploration", EXPL,
     "A contract monitor inside the simulated transport checks every Sink call of the client dispatch, the server channel and the throttler: readiness token before each write, nothing after close/failure, no Pending with unflushed items, at most 64 not-ready results per poll; capacities 1,2,3,inf, coupled and independent readiness, stalls.",
     "Monitor state machine is DESIGN.md A.3.", "DESIGN.md §5 C14, §7 D2")
 add("C16", "exploration", EXPL,
-    "Well-typed boundary-valued deadlines from local callers (client dispatch) and from the peer (server channel), with no subscriber, a formatting subscriber and the OpenTelemetry SDK layer installed; any panic in any task is a violation.",
-    "Byte-level malformed input to the framed decoders is part of the P-bytes profile (DESIGN.md); this revision covers well-typed messages.", "DESIGN.md §5 C16, §7 D5/D7")
+    "Well-typed boundary-valued deadlines from local callers (client dispatch) and from the peer (server channel), with no subscriber, a formatting subscriber and the OpenTelemetry SDK layer installed, including 780-day runs in which far-deadline requests arrive at t=0 or after 70-600 quiet days; and byte-level adversaries (bit flips of valid frames, garbage frames, floods, truncation at every cut point) against a real server channel and a real client dispatch over the serde transport. Any panic in any task is a violation; malformed frames must end the connection with an error; a well-formed probe after tolerated input must still be served.",
+    "One known finding (D9): a frame cut by EOF exactly after its 4-byte length prefix ends the connection cleanly (tokio_util LengthDelimitedCodec behaviour).", "DESIGN.md §5 C16, §7 D5/D7")
 add("C18", "exploration", EXPL,
     "Distinct caller-supplied trace ids and sampling decisions per call under concurrency and cancellation: transmitted trace id = caller's, fresh span per hop, Cancel carries the Request's transmitted context, handler observes what was transmitted.",
-    "Span ids come from thread_rng and are compared only for (in)equality.", "DESIGN.md §5 C18")
+    "Span ids come from a deterministic source (hook H5) and are compared only for (in)equality. With the OpenTelemetry layer the first hop's trace is the root span's own; from hop 1 on, and for every handler, the transmitted trace id and sampling decision must be preserved.", "DESIGN.md §5 C18")
 
 add("C07", "exploration", EXPL,
     "Virtual-clock exploration of deadline propagation: request deadlines from 0 ms (already expired at encode time) to 1 h through JSON and bincode over a SimPipe with virtual latency and through the in-memory transport, and service chains of depth 1-3 over mixed links; the deadline each handler observes is compared with the caller's deadline and the measured transit time (never earlier, never stretched beyond transit, expired arrives as now), and JSON requests omitting the deadline must get decode time + 10 s.",
